@@ -295,7 +295,67 @@ class SFix:
     __repr__ = __str__
 
 
+class SStr:
+    """opaque symbolic text: arbitrary content, only its emptiness is visible to the code (as a solver
+    branch).  Conversions through the shadowed int()/float() give Conv objects that remember
+    their source, so an oracle can say `the value is int(of exactly that text)`."""
+
+    def __init__(self, name, nonempty=None, src=None, op=None):
+        self.name = name
+        self.src = src
+        self.op = op
+        if nonempty is None:
+            nonempty = cur().fresh_bool(name + '_nonempty') if cur() is not None and cur().symbolic else True
+        self.nonempty = nonempty
+
+    def __bool__(self):
+        return bool(self.nonempty)
+
+    def replace(self, a, b):
+        return SStr(self.name + '.replace', self.nonempty, src=self, op=('replace', a, b))
+
+    def __eq__(self, o):
+        if o is self:
+            return True
+        raise Unsupported('comparison of opaque text')
+
+    def __hash__(self):
+        raise Unsupported('hash of opaque text')
+
+    def __len__(self):
+        raise Unsupported('len of opaque text')
+
+    def __str__(self):
+        return '<text:%s>' % self.name
+    __repr__ = __str__
+
+
+class Conv:
+    """result of int()/float() applied to an opaque text"""
+
+    def __init__(self, kind, src):
+        self.kind = kind
+        self.src = src
+
+    def __truediv__(self, o):
+        return Conv(('div', o, self.kind), self.src)
+
+    def __sub__(self, o):
+        return Conv(('sub', o, self.kind), self.src)
+
+    def __gt__(self, o):
+        # ids come from digit strings of the grammar's POSINT production
+        if self.kind == 'int' and o == 0:
+            return True
+        raise Unsupported('comparison of a converted opaque text')
+
+    def __repr__(self):
+        return '<%s of %r>' % (self.kind, self.src)
+
+
 def sym_int(x=0, *a):
+    if isinstance(x, SStr):
+        return Conv('int', x)
     """drop-in for builtins.int inside a module under test"""
     if isinstance(x, SInt):
         return x
@@ -305,6 +365,8 @@ def sym_int(x=0, *a):
 
 
 def sym_float(x=0.0):
+    if isinstance(x, SStr):
+        return Conv('float', x)
     if isinstance(x, (SInt, SFix)):
         return x
     return float(x)
